@@ -1013,7 +1013,7 @@ def rule_type_length(prog, fixture=False):
     r = RuleResult("R-C01-11", "`type` writes exactly as many bytes as the piece of the file it was handed: the count "
                    "given to cout.write is body_end - body_start, or the size of a buffer that holds one byte per "
                    "input byte (CR is replaced, never dropped or doubled; nothing depends on the previous byte)",
-                   floor=0 if fixture else 2)
+                   floor=0 if fixture else 1)
     for fn in prog.functions.values():
         if not (fn.relfile() == "dfs/cmd_type.cc" or fixture):
             continue
@@ -1022,8 +1022,16 @@ def rule_type_length(prog, fixture=False):
             continue
         b0, b1 = ptrs[0]["d"], ptrs[1]["d"]
 
-        def is_span(e):
+        def is_span(e, depth=0):
             e = strip_all(e)
+            for _ in range(3):
+                if e is not None and e.get("k") in ("CXXStaticCastExpr", "CStyleCastExpr", "CXXFunctionalCastExpr") and e.get("c"):
+                    e = strip_all(e["c"][0])
+            if e is not None and e.get("k") == "DeclRefExpr" and e.get("dk") == "Var" and depth < 2 and \
+                    not any(d_ == e["d"] for x in fn.walk() for d_, _ in flow.written_decls(x) if x.get("k") not in ("VarDecl", "DeclStmt")):
+                for v in fn.walk():
+                    if v.get("k") == "VarDecl" and v.get("d") == e["d"] and v.get("c"):
+                        return is_span(v["c"][0], depth + 1)
             return e is not None and e.get("k") == "BinaryOperator" and e.get("op") == "-" and \
                 (strip_all(e["c"][0]) or {}).get("d") == b1 and (strip_all(e["c"][1]) or {}).get("d") == b0
         k = 0
